@@ -4,8 +4,8 @@
    (TwoFactorProofs.v, TwoFactor2.v). *)
 From AB Require Import World.Step World.Exec Proofs.EvLogic Proofs.Neutral Proofs.HandlerEvents Proofs.ServeEvents
   Proofs.StepUid Proofs.MonadInv Proofs.Guards Proofs.StoreLogic Proofs.Guards2 Proofs.Guards3 Proofs.StepGuard
-  Proofs.StepAll Proofs.StepLift2 Proofs.Veto Proofs.NoLogin Proofs.Hijack Proofs.NoLogin2
-  Proofs.TwoFactorProofs Proofs.TwoFactor2 Proofs.LockWorld2 Proofs.HistoryProofs.
+  Proofs.StepAll Proofs.StepLift2 Proofs.Veto Proofs.NoLogin Proofs.Hijack Proofs.NoLogin2 Proofs.Gate
+  Proofs.TwoFactorProofs Proofs.TwoFactor2 Proofs.LockWorld Proofs.LockWorld2 Proofs.HistoryProofs.
 Open Scope Z_scope.
 
 
@@ -590,3 +590,680 @@ Lemma h3r_witness :
   alookup k_uid (jar_get (bs "b1") (w_sess (fst (step XC h3r_cfg h3r_world (AReq h3r_req) h3r_oracle)))) = Some h3_pid /\
   ob_resp (snd (step XC h3r_cfg h3r_world (AReq h3r_req) h3r_oracle)) = Some (RespRedirect302 (bs "/no/lock")).
 Proof. vm_compute. repeat split. Qed.
+
+(* ================================================================================================ *)
+(* 3. C13: provenance of every change of an account's (TOTP secret, SMS number, recovery codes)     *)
+(* ================================================================================================ *)
+(* tf_of st p (Proofs/TwoFactorProofs.v) is the triple stored for account p.  The frame theorems of
+   C13b / C13c (logic K over the invariant "everybody's triple is what the table T says") are
+   completed to the whole route table, the five settings routes are read through the access
+   middleware (only_owner), the two validation pages are followed by hand (a recovery code is the
+   one way they change a triple), and the result is lifted to [step] and [run]. *)
+Ltac rpost_go3 := repeat (unfold store_back; cbn beta iota zeta; rpost_step).
+
+Definition tf_same (st st' : storage) : Prop := forall p, tf_of st' p = tf_of st p.
+Definition tf_same_but (P : bytes) (st st' : storage) : Prop := forall p, p <> P -> tf_of st' p = tf_of st p.
+
+Lemma tf_same_refl st : tf_same st st. Proof. intros p. reflexivity. Qed.
+Lemma tf_same_eq st st' : st' = st -> tf_same st st'. Proof. intros ->. apply tf_same_refl. Qed.
+Lemma tf_same_trans a b c : tf_same a b -> tf_same b c -> tf_same a c.
+Proof. intros H1 H2 p. rewrite H2. apply H1. Qed.
+Lemma tf_same_users st st' : s_users st' = s_users st -> tf_same st st'.
+Proof. intros Eq p. unfold tf_of. rewrite Eq. reflexivity. Qed.
+Lemma tf_but_of_same P a b : tf_same a b -> tf_same_but P a b.
+Proof. intros H p _. apply H. Qed.
+Lemma tf_but_trans_same P a b c : tf_same_but P a b -> tf_same b c -> tf_same_but P a c.
+Proof. intros H1 H2 p N. rewrite H2. apply H1. exact N. Qed.
+
+Lemma uput_tf_same st u :
+  tf_of st (u_pid u) = Some (tf3 u) -> tf_same st (st <| s_users := uput (u_pid u) u (s_users st) |>).
+Proof.
+  intros G p. unfold tf_of. cbn [s_users set]. simpl. destruct (bytes_dec p (u_pid u)) as [->|N].
+  - rewrite ulookup_uput_eq. symmetry. exact G.
+  - rewrite ulookup_uput_neq by exact N. reflexivity.
+Qed.
+Lemma uput_tf_but st u : tf_same_but (u_pid u) st (st <| s_users := uput (u_pid u) u (s_users st) |>).
+Proof. intros p N. unfold tf_of. simpl. rewrite ulookup_uput_neq by exact N. reflexivity. Qed.
+Lemma uput_filed st u : filed st -> filed (st <| s_users := uput (u_pid u) u (s_users st) |>).
+Proof. intros F. unfold filed. simpl. apply filedl_uput. exact F. Qed.
+Lemma uput_good st u : tf_of (st <| s_users := uput (u_pid u) u (s_users st) |>) (u_pid u) = Some (tf3 u).
+Proof. unfold tf_of. simpl. rewrite ulookup_uput_eq. reflexivity. Qed.
+Lemma stored_good st u : ulookup (u_pid u) (s_users st) = Some u -> tf_of st (u_pid u) = Some (tf3 u).
+Proof. intros H. unfold tf_of. rewrite H. reflexivity. Qed.
+
+Section TF.
+Variable E : env.
+Notation top := (fun _ => True).
+Notation rc_in := (aget f_recovery_code (values E)).
+
+Lemma KT_closed {A} (m : M A) R h r h' :
+  (forall T, K (LT E T) m R) -> filed (h_st h) -> ctx_ok h -> m h = (r, h') ->
+  filed (h_st h') /\ tf_same (h_st h) (h_st h').
+Proof.
+  intros H F Cx Eq. destruct (keeps2fa_of_K m R H h r h' F Cx Eq) as (A1 & _ & A3). split; assumption.
+Qed.
+
+(* [set_cuser u] with a good u, then anything that keeps the triples *)
+Lemma set_cuser_cont_tf u (Kont : M unit) h r h' :
+  (forall T, goodT T u -> K (LT E T) Kont top) ->
+  filed (h_st h) -> tf_of (h_st h) (u_pid u) = Some (tf3 u) ->
+  (set_cuser u ;;; Kont) h = (r, h') ->
+  filed (h_st h') /\ tf_same (h_st h) (h_st h').
+Proof.
+  intros HK F G Eq.
+  apply bind_inv in Eq as [(a & h1 & E1 & E2)|[(e & E1 & _)|(E1 & _)]]; try (inversion E1; fail).
+  inversion E1; subst a h1; clear E1.
+  assert (I : invT (tf_of (h_st h)) (h <| h_cuser := Some u |>)).
+  { split; [exact F|]. split; [reflexivity|]. simpl. intros cu Hcu. inversion Hcu; subst. exact G. }
+  destruct (HK _ G _ _ _ I E2) as [I' _]. apply invT_end in I' as (F' & _ & Tb). split; [exact F'|exact Tb].
+Qed.
+
+Lemma save_tf u (b : bool) h r h' :
+  filed (h_st h) -> tf_of (h_st h) (u_pid u) = Some (tf3 u) ->
+  (if b then st_save (e_O E) u else ret tt) h = (r, h') ->
+  filed (h_st h') /\ tf_same (h_st h) (h_st h').
+Proof.
+  intros F G Eq. destruct b; [|inversion Eq; subst; split; [exact F|apply tf_same_refl]].
+  apply st_save_spec in Eq as (_ & _ & _ & _ & [(e & _ & St)|(_ & St)]); rewrite St.
+  - split; [exact F|apply tf_same_refl].
+  - split; [apply uput_filed; exact F|apply uput_tf_same; exact G].
+Qed.
+
+Lemma source_stored pk h u :
+  keyed (h_st h) -> h_cuser h = None -> user_source2 E pk h u -> ulookup (u_pid u) (s_users (h_st h)) = Some u.
+Proof. intros Ky Hc [H|[(_ & H)|(_ & H)]]; [congruence| |]; rewrite (Ky _ _ H); exact H. Qed.
+
+Lemma tv_tail_result u sh :
+  rpost (fun x => u_pid (fst (fst x)) = u_pid u /\ (snd x <> Some TSuccess -> fst (fst x) = u)) (tv_tail E u sh).
+Proof.
+  unfold tv_tail. rpost_go3; simpl; (split; [reflexivity|]); intros N; try reflexivity; exfalso; apply N; reflexivity.
+Qed.
+
+(* TOTP.validate from a request's start state *)
+Lemma totp_validate_tf h r h2 :
+  filed (h_st h) -> h_cuser h = None -> totp_validate E h = (r, h2) ->
+  (h_st h2 = h_st h /\
+   forall u' sh st, r = Ok (u', sh, st) -> tf_of (h_st h) (u_pid u') = Some (tf3 u')) \/
+  (bempty rc_in = false /\ exists u rest sh, user_source2 E k_totp_pending h u /\
+     r = Ok (consumed u rest, sh, Some TSuccess) /\
+     h_st h2 = h_st h <| s_users := uput (u_pid u) (consumed u rest) (s_users (h_st h)) |>).
+Proof.
+  intros F Hc Eq. pose proof (filed_keyed _ F) as Ky. rewrite totp_validate_unfold in Eq.
+  apply bind_inv in Eq as [([u sh] & h1 & E1 & E2)|[(e & E1 & ->)|(E1 & ->)]].
+  - pose proof E1 as E1'. unfold tv_head in E1'. apply fetch_user_spec2 in E1' as (S1 & Src).
+    pose proof (source_stored _ _ _ Ky Hc Src) as St. cbn beta iota in E2.
+    destruct (tv_tail_spec E u sh h1 r h2 E2) as
+      [(NS & S2)|[(Bt & Brc & Tk & S2 & u' & Hr & Pd & T3)|(Bt & Brc & rest & Ur & Hr & S2)]].
+    + left. split; [congruence|]. intros u' sh' st Hr. subst r.
+      destruct (tv_tail_result u sh h1 _ h2 E2) as [Pd Same]. cbn [fst snd] in *.
+      assert (Nst : st <> Some TSuccess) by (intros ->; exact (NS _ _ eq_refl)).
+      rewrite (Same Nst). apply stored_good. exact St.
+    + left. split; [congruence|]. intros u'' sh' st Hr'. rewrite Hr in Hr'. inversion Hr'; subst.
+      rewrite Pd, T3. apply stored_good. exact St.
+    + right. split; [exact Brc|]. exists u, rest, sh. split; [exact Src|]. split; [exact Hr|]. rewrite S2, S1. reflexivity.
+  - left. split; [exact (pres_tv_head E _ _ _ E1)|]. intros ? ? ? D. discriminate D.
+  - left. split; [exact (pres_tv_head E _ _ _ E1)|]. intros ? ? ? D. discriminate D.
+Qed.
+
+(* the outcome of a validation page on the triples *)
+Definition validate_outcome (pk : bytes) (h h' : hst) : Prop :=
+  filed (h_st h') /\
+  (tf_same (h_st h) (h_st h') \/
+   (bempty rc_in = false /\ exists u, user_source2 E pk h u /\ tf_same_but (u_pid u) (h_st h) (h_st h'))).
+
+Lemma same_outcome pk h h' : filed (h_st h) -> h_st h' = h_st h -> validate_outcome pk h h'.
+Proof. intros F S. split; [rewrite S; exact F|left; apply tf_same_eq; exact S]. Qed.
+
+Lemma totp_validate_post_tf h r h' :
+  filed (h_st h) -> h_cuser h = None ->
+  totp_validate_post E h = (r, h') -> validate_outcome k_totp_pending h h'.
+Proof.
+  intros F Hc Eq. unfold totp_validate_post in Eq.
+  apply bind_inv in Eq as [([[u' sh] st] & h2 & E1 & E2)|[(e & E1 & ->)|(E1 & ->)]];
+    apply (totp_validate_tf h _ _ F Hc) in E1;
+    try (destruct E1 as [(S2 & _)|(_ & u & rest & sh & _ & D & _)]; [apply same_outcome; assumption|discriminate D]).
+  destruct E1 as [(S2 & G)|(Brc & u & rest & sh0 & Src & Hr & S2)].
+  - specialize (G u' sh st eq_refl). rewrite <- S2 in G.
+    assert (F2 : filed (h_st h2)) by (rewrite S2; exact F).
+    assert (W : filed (h_st h') /\ tf_same (h_st h2) (h_st h')).
+    { destruct st as [ts|]; [destruct ts|]; cbn beta iota in E2.
+      - apply bind_inv in E2 as [(a & h3 & Sv & E3)|[(e & Sv & ->)|(Sv & ->)]];
+          destruct (save_tf u' _ _ _ _ F2 G Sv) as [F3 T3]; try (split; assumption).
+        assert (G3 : tf_of (h_st h3) (u_pid u') = Some (tf3 u')) by (rewrite T3; exact G).
+        match type of E3 with (set_cuser _ ;;; ?k) _ = _ =>
+          destruct (set_cuser_cont_tf u' k h3 r h') as [F4 T4]; try assumption end.
+        { intros T GT. k_go. }
+        split; [exact F4|]. eapply tf_same_trans; eassumption.
+      - match type of E2 with (set_cuser _ ;;; ?k) _ = _ =>
+          apply (set_cuser_cont_tf u' k h2 r h'); try assumption end.
+        intros T GT. k_go.
+      - match type of E2 with (set_cuser _ ;;; ?k) _ = _ =>
+          apply (set_cuser_cont_tf u' k h2 r h'); try assumption end.
+        intros T GT. k_go.
+      - match type of E2 with ?m _ = _ => assert (P : pres h_st m) by pres_go end.
+        rewrite (P _ _ _ E2). split; [exact F2|apply tf_same_refl]. }
+    destruct W as [F' T']. split; [exact F'|left]. intros p. rewrite T'. unfold tf_of. rewrite S2. reflexivity.
+  - inversion Hr; subst u' sh st. clear Hr. cbn beta iota in E2.
+    set (uc := consumed u rest) in *.
+    assert (Pc : u_pid uc = u_pid u) by reflexivity.
+    assert (F2 : filed (h_st h2)) by (rewrite S2, <- Pc; apply uput_filed; exact F).
+    assert (G : tf_of (h_st h2) (u_pid uc) = Some (tf3 uc)) by (rewrite S2, <- Pc; apply uput_good).
+    assert (B2 : tf_same_but (u_pid u) (h_st h) (h_st h2)) by (rewrite S2, <- Pc; apply uput_tf_but).
+    assert (W : filed (h_st h') /\ tf_same (h_st h2) (h_st h')).
+    { apply bind_inv in E2 as [(a & h3 & Sv & E3)|[(e & Sv & ->)|(Sv & ->)]];
+        destruct (save_tf uc _ _ _ _ F2 G Sv) as [F3 T3]; try (split; assumption).
+      assert (G3 : tf_of (h_st h3) (u_pid uc) = Some (tf3 uc)) by (rewrite T3; exact G).
+      match type of E3 with (set_cuser _ ;;; ?k) _ = _ =>
+        destruct (set_cuser_cont_tf uc k h3 r h') as [F4 T4]; try assumption end.
+      { intros T GT. k_go. }
+      split; [exact F4|]. eapply tf_same_trans; eassumption. }
+    destruct W as [F' T']. split; [exact F'|right]. split; [exact Brc|]. exists u. split; [exact Src|].
+    eapply tf_but_trans_same; eassumption.
+Qed.
+
+Lemma sms_validate_code_tf h0 u sh inp rc h r h' :
+  filed (h_st h) -> h_st h = h_st h0 -> ulookup (u_pid u) (s_users (h_st h)) = Some u ->
+  user_source2 E k_sms_pending h0 u ->
+  (bempty rc = false -> rc = rc_in) ->
+  sms_validate_code E SPValidate u sh inp rc h = (r, h') -> validate_outcome k_sms_pending h0 h'.
+Proof.
+  intros F S0 St Src Hrc Eq. rewrite sms_validate_code_unfold in Eq.
+  assert (SAME : forall k : hst, h_st k = h_st h -> validate_outcome k_sms_pending h0 k).
+  { intros k Sk. apply same_outcome; [rewrite <- S0; exact F|congruence]. }
+  assert (LIFT : forall k : hst, filed (h_st k) /\ tf_same (h_st h) (h_st k) -> validate_outcome k_sms_pending h0 k).
+  { intros k [Fk Tk]. split; [exact Fk|left]. intros p. rewrite Tk. unfold tf_of. rewrite S0. reflexivity. }
+  pose proof (stored_good _ _ St) as G.
+  apply bind_inv in Eq as [([vf u1] & h1 & V1 & V2)|[(e & V1 & ->)|(V1 & ->)]];
+    apply sms_check_spec in V1 as [(Hr & Hh)|[(Hr & Hs)|[(B & Hr & Hh & Bc & Hi & Bd)|(B & rest & Ur & Hr & Hs)]]];
+    try discriminate Hr; try (exfalso; eapply Hr; reflexivity); try (apply SAME; exact Hs).
+  - inversion Hr; subst vf u1 h1. cbn [negb] in V2. cbn beta iota in V2. apply LIFT.
+    unfold TwoFactor2.sms_fail_tail in V2.
+    match type of V2 with (set_cuser _ ;;; ?k) _ = _ => apply (set_cuser_cont_tf u k h r h'); try assumption end.
+    intros T GT. k_go.
+  - inversion Hr; subst vf u1 h1. cbn [negb] in V2. cbn beta iota in V2. apply LIFT.
+    unfold TwoFactor2.sms_ok_tail in V2.
+    match type of V2 with (set_cuser _ ;;; ?k) _ = _ => apply (set_cuser_cont_tf u k h r h'); try assumption end.
+    intros T GT. k_go.
+  - inversion Hr; subst vf u1. cbn [negb] in V2. cbn beta iota in V2.
+    set (uc := consumed u rest) in *.
+    assert (Pc : u_pid uc = u_pid u) by reflexivity.
+    assert (F1 : filed (h_st h1)) by (rewrite Hs, <- Pc; apply uput_filed; exact F).
+    assert (G1 : tf_of (h_st h1) (u_pid uc) = Some (tf3 uc)) by (rewrite Hs, <- Pc; apply uput_good).
+    assert (B1 : tf_same_but (u_pid u) (h_st h0) (h_st h1)) by (rewrite Hs, <- Pc, <- S0; apply uput_tf_but).
+    unfold TwoFactor2.sms_ok_tail in V2.
+    match type of V2 with (set_cuser _ ;;; ?k) _ = _ =>
+      destruct (set_cuser_cont_tf uc k h1 r h') as [F4 T4]; try assumption end.
+    { intros T GT. k_go. }
+    split; [exact F4|right]. split; [rewrite <- (Hrc B); exact B|]. exists u. split; [exact Src|].
+    eapply tf_but_trans_same; eassumption.
+Qed.
+
+Lemma sms_validate_post_tf h r h' :
+  filed (h_st h) -> h_cuser h = None ->
+  sms_validator_post E SPValidate h = (r, h') -> validate_outcome k_sms_pending h h'.
+Proof.
+  intros F Hc Eq. pose proof (filed_keyed _ F) as Ky. unfold sms_validator_post in Eq.
+  apply bind_inv in Eq as [([u sh] & h1 & E1 & E2)|[(e & E1 & ->)|(E1 & ->)]].
+  2,3: match type of E1 with ?m _ = _ => assert (P : pres h_st m) by pres_go end;
+       apply same_outcome; [exact F|exact (P _ _ _ E1)].
+  apply fetch_user_spec2 in E1 as (S1 & Src).
+  pose proof (source_stored _ _ _ Ky Hc Src) as St. cbn beta iota in E2.
+  assert (F1 : filed (h_st h1)) by (rewrite S1; exact F).
+  apply bind_inv in E2 as [(v & h2 & E1 & E2)|[(e & E1 & ->)|(E1 & ->)]];
+    apply read_values_spec in E1 as [-> [Hv|Hv]]; try discriminate Hv; try (apply same_outcome; assumption).
+  inversion Hv; subst v; clear Hv. cbv zeta in E2. cbn beta iota in E2.
+  rewrite <- S1 in St.
+  destruct (bempty rc_in && bempty (aget f_code (values E))).
+  { apply same_outcome; [exact F|]. rewrite (pres_st_sms_send_code E _ _ _ _ _ E2). exact S1. }
+  destruct (negb (bempty rc_in)).
+  - eapply (sms_validate_code_tf h u sh _ _ h1); try eassumption. reflexivity.
+  - eapply (sms_validate_code_tf h u sh _ _ h1); try eassumption. intros D. discriminate D.
+Qed.
+End TF.
+
+(* ---- the handlers that keep every triple: the pages and wrappers not covered in TwoFactorProofs --- *)
+Section KT3.
+Variable E : env.
+Variable T : bytes -> option (bytes * bytes * bytes).
+Notation KT := (K (LT E T)).
+Notation top := (fun _ => True).
+
+Lemma KT_login_get : KT (login_get E) top. Proof. unfold login_get. k_go. Qed.
+Lemma KT_otp_login_get : KT (otp_login_get E) top. Proof. unfold otp_login_get. k_go. Qed.
+Lemma KT_otp_show pg : KT (otp_show E pg) top. Proof. unfold otp_show. k_go. Qed.
+Lemma KT_resp0 pg : KT (resp0 E pg) top. Proof. unfold resp0. k_go. Qed.
+Lemma KT_recover_end_get : KT (recover_end_get E) top. Proof. unfold recover_end_get. k_go. Qed.
+Lemma KT_recovery_regen_get : KT (recovery_regen_get E) top. Proof. unfold recovery_regen_get. k_go. Qed.
+Lemma KT_email_verify_get k : KT (email_verify_get E k) top. Proof. unfold email_verify_get. k_go. Qed.
+Lemma KT_totp_setup_get : KT (totp_setup_get E) top. Proof. unfold totp_setup_get. k_go. Qed.
+Lemma KT_totp_confirm_get : KT (totp_confirm_get E) top. Proof. unfold totp_confirm_get. k_go. Qed.
+Lemma KT_totp_qr : KT (totp_qr E) top. Proof. unfold totp_qr. k_go. Qed.
+Lemma KT_sms_setup_get : KT (sms_setup_get E) top. Proof. unfold sms_setup_get. k_go. Qed.
+Lemma KT_app_handler : KT (app_handler E) top. Proof. unfold app_handler. k_go. Qed.
+Lemma KT_email_verify_wrap k : KT (email_verify_wrap E k) top. Proof. unfold email_verify_wrap. k_go. Qed.
+Lemma KT_expire_mw : KT (expire_mw E) top. Proof. unfold expire_mw. k_go. Qed.
+
+Lemma KT_behind full hd : KT hd top -> KT (behind E full hd) top.
+Proof.
+  intros Hh. unfold behind. eapply K_bind; [apply KT_auth_middleware|].
+  intros ok _. destruct ok; [exact Hh|apply K_ret_top].
+Qed.
+Lemma KT_verified k hd : KT hd top -> KT (verified E k hd) top.
+Proof.
+  intros Hh. unfold verified. apply KT_behind. eapply K_bind; [apply KT_email_verify_wrap|].
+  intros ok _. destruct ok; [exact Hh|apply K_ret_top].
+Qed.
+Lemma KT_with_error_handler hd : KT hd top -> KT (with_error_handler E hd) top.
+Proof. intros Hh. unfold with_error_handler. eapply K_try; [exact Hh|intros; k_go|intros; k_go]. Qed.
+End KT3.
+
+Lemma KT_env E1 E2 T {A} (m : M A) R : K (LT E1 T) m R -> K (LT E2 T) m R.
+Proof. intros H. exact H. Qed.
+
+Lemma KT_app_stack E T full tf fr l c r e : K (LT E T) (app_stack E full tf fr l c r e) (fun _ => True).
+Proof.
+  unfold app_stack. eapply K_bind.
+  { destruct e; [apply KT_expire_mw|apply K_ret_top]. }
+  intros sess _. cbv zeta.
+  eapply K_bind.
+  { destruct r; [|apply K_ret_top]. eapply K_bind; [apply (KT_env (with_sess E sess)), KT_remember_mw|].
+    intros _ _. unfold remembered_view. k_go. }
+  intros sess2 _. eapply K_bind. { apply (KT_env (with_sess E sess2)), KT_auth_middleware. }
+  intros ok _. destruct ok; [|apply K_ret_top]. cbn [negb].
+  eapply K_bind. { destruct l; [apply (KT_env (with_sess E sess2)), KT_lock_mw|apply K_ret_top]. }
+  intros ok _. destruct ok; [|apply K_ret_top]. cbn [negb].
+  eapply K_bind. { destruct c; [apply (KT_env (with_sess E sess2)), KT_confirm_mw|apply K_ret_top]. }
+  intros ok _. destruct ok; [|apply K_ret_top]. cbn [negb].
+  apply (KT_env (with_sess E sess2)), KT_app_handler.
+Qed.
+
+(* ---- the route table --------------------------------------------------------------------------- *)
+(* the requests whose handler can change somebody's triple *)
+Inductive fkind := FReg | FOAuth (prov : bytes) | FTotpConfirm | FTotpRemove | FSmsConfirm | FSmsRemove | FRegen
+                 | FTotpVal | FSmsVal.
+
+Definition fkind_of (cfg : config) (q : request) : option fkind :=
+  match q_route q, q_meth q with
+  | RRegister, POST => if has_mod cfg MRegister then Some FReg else None
+  | ROAuthCallback p, GET => if has_mod cfg MOAuth2 && bmem p (c_providers cfg) then Some (FOAuth p) else None
+  | RTotpConfirm, POST => if c_totp cfg then Some FTotpConfirm else None
+  | RTotpRemove, POST => if c_totp cfg then Some FTotpRemove else None
+  | RSmsConfirm, POST => if c_sms cfg then Some FSmsConfirm else None
+  | RSmsRemove, POST => if c_sms cfg then Some FSmsRemove else None
+  | RRecoveryRegen, POST => if c_recovery cfg then Some FRegen else None
+  | RTotpValidate, POST => if c_totp cfg then Some FTotpVal else None
+  | RSmsValidate, POST => if c_sms cfg then Some FSmsVal else None
+  | _, _ => None
+  end.
+
+Definition fhandler (E : env) (k : fkind) : M unit :=
+  match k with
+  | FReg => register_post E
+  | FOAuth p => oauth2_end E p
+  | FTotpConfirm => verified E KTotp (totp_confirm_post E)
+  | FTotpRemove => behind E true (totp_remove_post E)
+  | FSmsConfirm => verified E KSms (sms_validator_post E SPConfirm)
+  | FSmsRemove => behind E true (sms_validator_post E SPRemove)
+  | FRegen => behind E true (recovery_regen_post E)
+  | FTotpVal => totp_validate_post E
+  | FSmsVal => sms_validator_post E SPValidate
+  end.
+
+Lemma route_fkind E k : fkind_of (e_cfg E) (e_req E) = Some k -> route_table E = Handler (fhandler E k).
+Proof.
+  unfold fkind_of, route_table, when, get_post, on_method.
+  destruct (q_route (e_req E)) eqn:Hr; destruct (q_meth (e_req E)) eqn:Hm; cbn beta iota; cbn [meth_eqb];
+    try discriminate;
+    match goal with |- (if ?c then _ else _) = _ -> _ => destruct c end;
+    intros CK; try discriminate CK; injection CK as <-; reflexivity.
+Qed.
+
+Lemma route_fother E T hd :
+  fkind_of (e_cfg E) (e_req E) = None -> route_table E = Handler hd -> K (LT E T) hd (fun _ => True).
+Proof.
+  unfold fkind_of, route_table, when, get_post, on_method.
+  destruct (q_route (e_req E)) eqn:Hr; destruct (q_meth (e_req E)) eqn:Hm; cbn beta iota; cbn [meth_eqb];
+    intros CK;
+    repeat match goal with |- (if ?c then _ else _) = Handler _ -> _ => destruct c end;
+    intros RT; try discriminate RT; try discriminate CK; injection RT as <-;
+    repeat first
+      [ apply KT_verified | apply KT_behind | apply KT_app_stack
+      | apply KT_login_get | apply KT_login_post | apply KT_otp_login_get | apply KT_otp_login_post
+      | apply KT_otp_show | apply KT_otp_add_post | apply KT_otp_clear_post | apply KT_resp0
+      | apply KT_confirm_get | apply KT_recover_start_post | apply KT_recover_end_get | apply KT_recover_end_post
+      | apply KT_logout | apply KT_recovery_regen_get
+      | apply KT_email_verify_get | apply KT_email_verify_post | apply KT_email_verify_end
+      | apply KT_totp_setup_get | apply KT_totp_setup_post | apply KT_totp_confirm_get
+      | apply KT_totp_qr | apply KT_sms_setup_get | apply KT_sms_setup_post
+      | apply KT_oauth2_start ].
+Qed.
+
+Lemma serve_fother_tf E h r h' :
+  fkind_of (e_cfg E) (e_req E) = None -> filed (h_st h) -> ctx_ok h -> serve E h = (r, h') ->
+  tf_same (h_st h) (h_st h').
+Proof.
+  intros CK F Cx Eq.
+  assert (HK : forall T, K (LT E T) (serve E) (fun _ => True)).
+  { intros T. unfold serve. destruct (route_table E) as [hd| |] eqn:RT.
+    - apply KT_with_error_handler. eapply route_fother; eassumption.
+    - apply K_pres. pres_go.
+    - apply K_pres. pres_go. }
+  exact (proj2 (KT_closed E (serve E) _ h r h' HK F Cx Eq)).
+Qed.
+
+(* ---- the settings routes: behind RequireFullAuth, only the session user's record ---------------- *)
+Section Owner.
+Variable E : env.
+Notation sess := (e_sess E).
+
+Definition owner_outcome (h h' : hst) : Prop :=
+  (forall p, p <> aget k_uid sess -> ulookup p (s_users (h_st h')) = ulookup p (s_users (h_st h))) /\
+  (s_users (h_st h') <> s_users (h_st h) ->
+     bempty (aget k_uid sess) = false /\ ahas k_halfauth sess = false /\
+     exists u, ulookup (aget k_uid sess) (s_users (h_st h)) = Some u).
+
+Lemma owner_same h h' : s_users (h_st h') = s_users (h_st h) -> owner_outcome h h'.
+Proof. intros S. split; [intros p _; rewrite S; reflexivity|intros Ch; contradiction]. Qed.
+
+Lemma behind_owner (m : M unit) h r h' :
+  only_owner m -> keyed (h_st h) -> h_cuser h = None -> h_cpid h = None ->
+  behind E true m h = (r, h') -> owner_outcome h h'.
+Proof.
+  intros Own Ky Hc Hp Eq. unfold behind in Eq.
+  apply bind_inv in Eq as [(ok & h1 & E1 & E2)|[(e & E1 & ->)|(E1 & ->)]];
+    pose proof (pres_st_auth_middleware E _ _ _ _ _ _ _ E1) as S1;
+    try (apply owner_same; rewrite S1; reflexivity).
+  destruct ok; [|inversion E2; subst; apply owner_same; rewrite S1; reflexivity].
+  destruct (auth_middleware_admits E _ _ _ _ _ _ E1) as (R & _ & G & _).
+  destruct (G Hc Hp) as (NE & u & Hu & Cu).
+  pose proof (Ky _ _ Hu) as Pu.
+  destruct (Own h1 u r h' Cu E2) as [_ Fr]. rewrite Pu, S1 in Fr. split; [exact Fr|].
+  intros _. split; [exact NE|]. split; [|exists u; exact Hu].
+  unfold reqs_ok in R. destruct (ahas k_halfauth sess); [cbn [andb negb] in R; discriminate R|reflexivity].
+Qed.
+
+Lemma only_owner_wrap k (m : M unit) :
+  only_owner m -> only_owner (ok <- email_verify_wrap E k ;; if ok then m else ret tt).
+Proof.
+  intros Own h u r h' Hc Eq.
+  assert (SAME : forall k1 : hst, uc k1 = uc h ->
+            (exists cu', h_cuser k1 = Some cu' /\ u_pid cu' = u_pid u) /\
+            forall p, p <> u_pid u -> ulookup p (s_users (h_st k1)) = ulookup p (s_users (h_st h))).
+  { intros k1 U. unfold uc in U. inversion U as [[A1 A2]]. rewrite A1, A2. split; [exists u; auto|auto]. }
+  apply bind_inv in Eq as [(ok & h1 & E1 & E2)|[(e & E1 & ->)|(E1 & ->)]];
+    pose proof (pres_email_verify_wrap E k _ _ _ E1) as U1; try (apply SAME; exact U1).
+  destruct ok; [|inversion E2; subst; apply SAME; exact U1].
+  unfold uc in U1. inversion U1 as [[A1 A2]].
+  rewrite <- A2 in Hc. destruct (Own h1 u r h' Hc E2) as [Cx Fr]. split; [exact Cx|].
+  intros p N. rewrite (Fr p N), A1. reflexivity.
+Qed.
+
+Lemma verified_owner k (m : M unit) h r h' :
+  only_owner m -> keyed (h_st h) -> h_cuser h = None -> h_cpid h = None ->
+  verified E k m h = (r, h') -> owner_outcome h h'.
+Proof. intros Own. unfold verified. apply behind_owner. apply only_owner_wrap. exact Own. Qed.
+End Owner.
+
+(* ---- one request at the level of [serve] -------------------------------------------------------- *)
+Definition serve_tf_outcome (E : env) (h h' : hst) : Prop :=
+  match fkind_of (e_cfg E) (e_req E) with
+  | None => tf_same (h_st h) (h_st h')
+  | Some FReg =>
+      forall p, p <> aget (pid_field E) (values E) \/ ulookup p (s_users (h_st h)) <> None ->
+                tf_of (h_st h') p = tf_of (h_st h) p
+  | Some (FOAuth prov) =>
+      forall p, p <> make_oauth2_pid prov (pa_uid (o_provider (e_O E))) \/ ulookup p (s_users (h_st h)) <> None ->
+                tf_of (h_st h') p = tf_of (h_st h) p
+  | Some FTotpVal => validate_outcome E k_totp_pending h h'
+  | Some FSmsVal => validate_outcome E k_sms_pending h h'
+  | Some _ => owner_outcome E h h'
+  end.
+
+Lemma validate_outcome_users E pk h h1 h' :
+  s_users (h_st h') = s_users (h_st h1) -> filed (h_st h') -> validate_outcome E pk h h1 -> validate_outcome E pk h h'.
+Proof.
+  intros S F' (_ & [Sm|(B & u & Src & Bt)]); (split; [exact F'|]).
+  - left. intros p. unfold tf_of. rewrite S. apply Sm.
+  - right. split; [exact B|]. exists u. split; [exact Src|]. intros p N. unfold tf_of. rewrite S. apply Bt. exact N.
+Qed.
+
+Lemma owner_outcome_users E h h1 h' :
+  s_users (h_st h') = s_users (h_st h1) -> owner_outcome E h h1 -> owner_outcome E h h'.
+Proof. intros S [A B]. split; [intros p N; rewrite S; apply A; exact N|rewrite S; exact B]. Qed.
+
+Lemma serve_tf E h r h' :
+  filed (h_st h) -> h_cuser h = None -> h_cpid h = None -> serve E h = (r, h') ->
+  filed (h_st h') -> serve_tf_outcome E h h'.
+Proof.
+  intros F Hc Hp Eq F'. pose proof (filed_keyed _ F) as Ky. pose proof (ctx_ok_none h Hc) as Cx.
+  unfold serve_tf_outcome. destruct (fkind_of (e_cfg E) (e_req E)) as [k|] eqn:CK.
+  2:{ exact (serve_fother_tf E h r h' CK F Cx Eq). }
+  unfold serve in Eq. rewrite (route_fkind E k CK) in Eq.
+  apply weh_users in Eq as (r1 & h1 & Eq & Us). unfold users in Us.
+  destruct k; cbn [fhandler] in Eq.
+  - destruct (register_post_2fa E h r1 h1 F Cx Eq) as (_ & _ & Fr).
+    intros p Hp'. unfold tf_of at 1. rewrite Us. exact (Fr p Hp').
+  - destruct (oauth2_end_2fa E prov h r1 h1 F Cx Eq) as (_ & _ & Fr).
+    intros p Hp'. unfold tf_of at 1. rewrite Us. exact (Fr p Hp').
+  - apply (owner_outcome_users E h h1 h' Us).
+    exact (verified_owner E KTotp _ h r1 h1 (proj1 (settings_only_owner E)) Ky Hc Hp Eq).
+  - apply (owner_outcome_users E h h1 h' Us).
+    exact (behind_owner E _ h r1 h1 (proj1 (proj2 (settings_only_owner E))) Ky Hc Hp Eq).
+  - apply (owner_outcome_users E h h1 h' Us).
+    exact (verified_owner E KSms _ h r1 h1 (proj1 (proj2 (proj2 (settings_only_owner E)))) Ky Hc Hp Eq).
+  - apply (owner_outcome_users E h h1 h' Us).
+    exact (behind_owner E _ h r1 h1 (proj1 (proj2 (proj2 (proj2 (settings_only_owner E))))) Ky Hc Hp Eq).
+  - apply (owner_outcome_users E h h1 h' Us).
+    exact (behind_owner E _ h r1 h1 (proj2 (proj2 (proj2 (proj2 (settings_only_owner E))))) Ky Hc Hp Eq).
+  - apply (validate_outcome_users E _ h h1 h' Us F'). exact (totp_validate_post_tf E h r1 h1 F Hc Eq).
+  - apply (validate_outcome_users E _ h h1 h' Us F'). exact (sms_validate_post_tf E h r1 h1 F Hc Eq).
+Qed.
+
+(* ---- administrative actions --------------------------------------------------------------------- *)
+Lemma KT_admin C cfg O a T :
+  (match a with ALock _ | AUnlock _ | AUpdatePassword _ _ | AStartConfirm _ => True | _ => False end) ->
+  K (LT (mkEnv C cfg O null_request [] []) T) (admin C cfg O a) (fun _ => True).
+Proof.
+  intros Ia. set (E0 := mkEnv C cfg O null_request [] []).
+  assert (SV : forall u, goodT T u -> K (LT E0 T) (st_save O u) (fun _ => True)).
+  { intros u G. exact (K_st_save (LT E0 T) u G). }
+  assert (LD : forall p, K (LT E0 T) (st_load O p) (goodT T)).
+  { intros p. exact (K_st_load E0 T p). }
+  assert (EXT : forall u u', u_pid u' = u_pid u -> tf3 u' = tf3 u -> goodT T u -> goodT T u').
+  { intros u u' A B G. exact (k_ext (LT E0 T) u u' A B G). }
+  destruct a; try (exfalso; exact Ia); unfold admin; cbv zeta; fold E0.
+  - eapply K_bind; [apply LD|intros u G]. apply SV. unfold lock_apply. apply (EXT u); [reflexivity|reflexivity|exact G].
+  - eapply K_bind; [apply LD|intros u G]. apply SV. unfold lock_apply. apply (EXT u); [reflexivity|reflexivity|exact G].
+  - eapply K_bind; [apply LD|intros u G].
+    eapply K_bind; [k_go|intros _ _].
+    eapply K_bind; [k_go|intros pass _].
+    eapply K_bind; [apply SV; apply (EXT u); [reflexivity|reflexivity|exact G]|intros _ _]. k_go.
+  - eapply K_bind; [apply LD|intros u G].
+    eapply K_bind; [k_go|intros raw _].
+    eapply K_bind; [k_go|intros _ _].
+    eapply K_bind.
+    { eapply K_try; [apply SV; apply (EXT u); [reflexivity|reflexivity|exact G]|intros; k_go|intros; k_go]. }
+    intros _ _. unfold send_mail. k_go.
+Qed.
+
+Lemma fkind_of_inv cfg req k : fkind_of cfg req = Some k ->
+  match k with
+  | FReg => q_route req = RRegister /\ q_meth req = POST /\ has_mod cfg MRegister = true
+  | FOAuth p => q_route req = ROAuthCallback p /\ q_meth req = GET /\
+                has_mod cfg MOAuth2 = true /\ bmem p (c_providers cfg) = true
+  | FTotpConfirm => q_route req = RTotpConfirm /\ q_meth req = POST /\ c_totp cfg = true
+  | FTotpRemove => q_route req = RTotpRemove /\ q_meth req = POST /\ c_totp cfg = true
+  | FSmsConfirm => q_route req = RSmsConfirm /\ q_meth req = POST /\ c_sms cfg = true
+  | FSmsRemove => q_route req = RSmsRemove /\ q_meth req = POST /\ c_sms cfg = true
+  | FRegen => q_route req = RRecoveryRegen /\ q_meth req = POST /\ c_recovery cfg = true
+  | FTotpVal => q_route req = RTotpValidate /\ q_meth req = POST /\ c_totp cfg = true
+  | FSmsVal => q_route req = RSmsValidate /\ q_meth req = POST /\ c_sms cfg = true
+  end.
+Proof.
+  unfold fkind_of. destruct (q_route req) eqn:Hr; destruct (q_meth req) eqn:Hm; try discriminate;
+    match goal with |- (if ?c then _ else _) = _ -> _ => destruct c eqn:Hc end;
+    intros H; try discriminate H; injection H as <-; cbn beta iota;
+    try (apply andb_true_iff in Hc as [Hc1 Hc2]); auto.
+Qed.
+
+(* ---- [step] -------------------------------------------------------------------------------------- *)
+(* POST to one of the five settings routes, module set up *)
+Definition settings_route (cfg : config) (req : request) : Prop :=
+  q_meth req = POST /\
+  ((q_route req = RTotpConfirm /\ c_totp cfg = true) \/ (q_route req = RTotpRemove /\ c_totp cfg = true) \/
+   (q_route req = RSmsConfirm /\ c_sms cfg = true) \/ (q_route req = RSmsRemove /\ c_sms cfg = true) \/
+   (q_route req = RRecoveryRegen /\ c_recovery cfg = true)).
+
+(* POST to one of the two validation pages; pk is the page's pending key *)
+Definition validate_route (cfg : config) (req : request) (pk : bytes) : Prop :=
+  q_meth req = POST /\
+  ((q_route req = RTotpValidate /\ c_totp cfg = true /\ pk = k_totp_pending) \/
+   (q_route req = RSmsValidate /\ c_sms cfg = true /\ pk = k_sms_pending)).
+
+(* the step (a, O) taken from w can have changed the (totp, sms, recovery) triple stored for P *)
+Definition tf_touch (C : crypto) (cfg : config) (w : world) (a : action) (O : oracle) (P : bytes) : Prop :=
+  (exists req, a = AReq req /\ settings_route cfg req /\
+     let j := jar_get (q_browser req) (w_sess w) in
+     alookup k_uid j = Some P /\ bempty P = false /\ ahas k_halfauth j = false /\
+     ulookup P (s_users (w_st w)) <> None) \/
+  (exists req pk, a = AReq req /\ validate_route cfg req pk /\
+     let j := jar_get (q_browser req) (w_sess w) in
+     bempty (aget f_recovery_code (values (ENV C cfg w O req))) = false /\
+     bempty P = false /\ (aget k_uid j = P \/ aget pk j = P) /\
+     ulookup P (s_users (w_st w)) <> None) \/
+  (exists req, a = AReq req /\ q_route req = RRegister /\ q_meth req = POST /\ has_mod cfg MRegister = true /\
+     P = aget (pid_field (ENV C cfg w O req)) (values (ENV C cfg w O req)) /\
+     ulookup P (s_users (w_st w)) = None) \/
+  (exists req prov, a = AReq req /\ q_route req = ROAuthCallback prov /\ q_meth req = GET /\
+     has_mod cfg MOAuth2 = true /\ bmem prov (c_providers cfg) = true /\
+     P = make_oauth2_pid prov (pa_uid (o_provider O)) /\ ulookup P (s_users (w_st w)) = None) \/
+  (exists u rm, a = ASeed u rm /\ u_pid u = P).
+
+Lemma aget_nonempty_lookup k j : bempty (aget k j) = false -> alookup k j = Some (aget k j).
+Proof. unfold aget. destruct (alookup k j); [reflexivity|intros D; discriminate D]. Qed.
+
+Lemma tf_changed_users st st' P : tf_of st' P <> tf_of st P -> s_users st' <> s_users st.
+Proof. intros N S. apply N. unfold tf_of. rewrite S. reflexivity. Qed.
+
+Lemma step_tf_touch C cfg w a O P :
+  filed (w_st w) ->
+  tf_of (w_st (fst (step C cfg w a O))) P <> tf_of (w_st w) P -> tf_touch C cfg w a O P.
+Proof.
+  intros F Ch. pose proof (step_filed_lemma C cfg w a O F) as F'. pose proof (filed_keyed _ F) as Ky.
+  destruct a as [req|pid|pid|pid pw|pid|su rm|b k v|ck b j].
+  - rewrite step_req_st in Ch, F'.
+    set (E := ENV C cfg w O req) in *.
+    destruct (serve E (init_hst (w_st w) O)) as [r h'] eqn:Eq. cbn [snd] in Ch, F'.
+    pose proof (serve_tf E (init_hst (w_st w) O) r h' F eq_refl eq_refl Eq F') as Out.
+    unfold serve_tf_outcome in Out. cbn [e_cfg e_req E] in Out.
+    destruct (fkind_of cfg req) as [k|] eqn:CK; [|exfalso; apply Ch; apply Out].
+    pose proof (fkind_of_inv cfg req k CK) as Inv. cbn [h_st init_hst] in Out.
+    assert (OWN : owner_outcome E (init_hst (w_st w) O) h' -> settings_route cfg req ->
+                  tf_touch C cfg w (AReq req) O P).
+    { intros [A B] SR. left. exists req. split; [reflexivity|]. split; [exact SR|]. cbv zeta.
+      cbn [h_st init_hst e_sess E] in A, B.
+      destruct (bytes_dec P (aget k_uid (jar_get (q_browser req) (w_sess w)))) as [EP|NP].
+      2:{ exfalso. apply Ch. unfold tf_of. rewrite (A P NP). reflexivity. }
+      destruct (B (tf_changed_users _ _ _ Ch)) as (NE & NH & u & Hu).
+      rewrite EP. split; [apply aget_nonempty_lookup; exact NE|]. split; [exact NE|]. split; [exact NH|].
+      rewrite Hu. discriminate. }
+    assert (VAL : forall pk, validate_outcome E pk (init_hst (w_st w) O) h' -> validate_route cfg req pk ->
+                  tf_touch C cfg w (AReq req) O P).
+    { intros pk (_ & [Sm|(B & u & Src & Bt)]) VR; [exfalso; apply Ch; apply Sm|].
+      right; left. exists req, pk. split; [reflexivity|]. split; [exact VR|]. cbv zeta.
+      split; [exact B|].
+      destruct (bytes_dec P (u_pid u)) as [EP|NP]; [|exfalso; apply Ch; apply Bt; exact NP].
+      apply (user_source2_pending E pk (init_hst (w_st w) O) u Ky eq_refl eq_refl) in Src.
+      cbn [h_st init_hst e_sess E] in Src. rewrite EP.
+      destruct Src as [(NE & Pk & L)|(NE & Pk & L)]; rewrite Pk.
+      - split; [exact NE|]. split; [left; reflexivity|]. rewrite L. discriminate.
+      - split; [exact NE|]. split; [right; reflexivity|]. rewrite L. discriminate. }
+    destruct k.
+    + destruct Inv as (R & M & HM). right; right; left. exists req. do 4 (split; [assumption || reflexivity|]).
+      destruct (bytes_dec P (aget (pid_field E) (values E))) as [EP|NP];
+        [|exfalso; apply Ch; apply Out; left; exact NP].
+      split; [exact EP|].
+      destruct (ulookup P (s_users (w_st w))) eqn:L; [|reflexivity].
+      exfalso. apply Ch. apply Out. right. rewrite L. discriminate.
+    + destruct Inv as (R & M & HM & HP). right; right; right; left. exists req, prov.
+      do 5 (split; [assumption || reflexivity|]). cbn [e_O E] in Out.
+      destruct (bytes_dec P (make_oauth2_pid prov (pa_uid (o_provider O)))) as [EP|NP];
+        [|exfalso; apply Ch; apply Out; left; exact NP].
+      split; [exact EP|].
+      destruct (ulookup P (s_users (w_st w))) eqn:L; [|reflexivity].
+      exfalso. apply Ch. apply Out. right. rewrite L. discriminate.
+    + apply (OWN Out). destruct Inv as (R & M & HM). split; [exact M|]. auto.
+    + apply (OWN Out). destruct Inv as (R & M & HM). split; [exact M|]. auto.
+    + apply (OWN Out). destruct Inv as (R & M & HM). split; [exact M|]. auto 6.
+    + apply (OWN Out). destruct Inv as (R & M & HM). split; [exact M|]. auto 6.
+    + apply (OWN Out). destruct Inv as (R & M & HM). split; [exact M|]. auto 8.
+    + apply (VAL _ Out). destruct Inv as (R & M & HM). split; [exact M|]. left. auto.
+    + apply (VAL _ Out). destruct Inv as (R & M & HM). split; [exact M|]. right. auto.
+  - exfalso. apply Ch. rewrite (step_admin_st C cfg w (ALock pid) O I).
+    destruct (admin C cfg O (ALock pid) (init_hst (w_st w) O)) as [r h'] eqn:Eq. cbn [snd].
+    exact (proj2 (KT_closed _ _ _ (init_hst (w_st w) O) r h' (fun T => KT_admin C cfg O (ALock pid) T I) F (ctx_ok_none (init_hst (w_st w) O) eq_refl) Eq) P).
+  - exfalso. apply Ch. rewrite (step_admin_st C cfg w (AUnlock pid) O I).
+    destruct (admin C cfg O (AUnlock pid) (init_hst (w_st w) O)) as [r h'] eqn:Eq. cbn [snd].
+    exact (proj2 (KT_closed _ _ _ (init_hst (w_st w) O) r h' (fun T => KT_admin C cfg O (AUnlock pid) T I) F (ctx_ok_none (init_hst (w_st w) O) eq_refl) Eq) P).
+  - exfalso. apply Ch. rewrite (step_admin_st C cfg w (AUpdatePassword pid pw) O I).
+    destruct (admin C cfg O (AUpdatePassword pid pw) (init_hst (w_st w) O)) as [r h'] eqn:Eq. cbn [snd].
+    exact (proj2 (KT_closed _ _ _ (init_hst (w_st w) O) r h' (fun T => KT_admin C cfg O (AUpdatePassword pid pw) T I) F (ctx_ok_none (init_hst (w_st w) O) eq_refl) Eq) P).
+  - exfalso. apply Ch. rewrite (step_admin_st C cfg w (AStartConfirm pid) O I).
+    destruct (admin C cfg O (AStartConfirm pid) (init_hst (w_st w) O)) as [r h'] eqn:Eq. cbn [snd].
+    exact (proj2 (KT_closed _ _ _ (init_hst (w_st w) O) r h' (fun T => KT_admin C cfg O (AStartConfirm pid) T I) F (ctx_ok_none (init_hst (w_st w) O) eq_refl) Eq) P).
+  - do 4 right. exists su, rm. split; [reflexivity|].
+    destruct (bytes_dec P (u_pid su)) as [EP|NP]; [symmetry; exact EP|].
+    exfalso. apply Ch. rewrite (step_admin_st C cfg w (ASeed su rm) O I).
+    cbn [admin modify snd h_st init_hst set s_users]. unfold tf_of. cbn [s_users].
+    rewrite ulookup_uput_neq by exact NP. reflexivity.
+  - exfalso. apply Ch. rewrite (step_jar_st C cfg w (APlant b k v) O I). reflexivity.
+  - exfalso. apply Ch. rewrite (step_jar_st C cfg w (ASetJar ck b j) O I). reflexivity.
+Qed.
+
+(* ---- histories ------------------------------------------------------------------------------------ *)
+Lemma option_tf_dec (x y : option (bytes * bytes * bytes)) : {x = y} + {x <> y}.
+Proof. decide equality. decide equality; [apply bytes_dec|]. decide equality; apply bytes_dec. Qed.
+Lemma c13_history_lemma C cfg : forall l w0 w' os P,
+  filed (w_st w0) -> run C cfg w0 l = (w', os) ->
+  tf_of (w_st w') P <> tf_of (w_st w0) P ->
+  exists l1 a O l2 w1, l = l1 ++ (a, O) :: l2 /\ fst (run C cfg w0 l1) = w1 /\
+    tf_of (w_st (fst (step C cfg w1 a O))) P <> tf_of (w_st w1) P /\
+    tf_touch C cfg w1 a O P.
+Proof.
+  induction l as [|[a O] l IH] using rev_ind; intros w0 w' os P F Rn Ch.
+  - inversion Rn; subst. exfalso. apply Ch. reflexivity.
+  - assert (Ew : w' = fst (step C cfg (fst (run C cfg w0 l)) a O)).
+    { pose proof (run_app_fst C cfg l [(a, O)] w0) as Ap. rewrite Rn in Ap. cbn [fst] in Ap. rewrite Ap.
+      cbn [run]. destruct (step C cfg (fst (run C cfg w0 l)) a O) as [w2 o2]. reflexivity. }
+    set (w1 := fst (run C cfg w0 l)) in *.
+    destruct (option_tf_dec (tf_of (w_st w1) P) (tf_of (w_st w0) P)) as [Same|Diff].
+    + exists l, a, O, [], w1. split; [reflexivity|]. split; [reflexivity|].
+      assert (Ch1 : tf_of (w_st (fst (step C cfg w1 a O))) P <> tf_of (w_st w1) P) by (rewrite <- Ew, Same; exact Ch).
+      split; [exact Ch1|]. apply step_tf_touch; [|exact Ch1]. apply run_filed_lemma. exact F.
+    + destruct (IH w0 w1 (snd (run C cfg w0 l)) P F (surjective_pairing _) Diff)
+        as (l1 & a1 & O1 & l2 & w2 & E & W2 & Ch2 & Tt).
+      exists l1, a1, O1, (l2 ++ [(a, O)]), w2. split; [rewrite E, <- app_assoc; reflexivity|]. auto.
+Qed.
+
+(* C13, non-vacuity of the validation-page alternative (executable crypto instance, computed): the
+   account has a TOTP secret and one recovery code; the password parks the login, the recovery code at
+   /2fa/totp/validate completes it - and the stored recovery list is now empty: the triple changed at
+   a request of a browser whose session named nobody and whose pending marker was the account *)
+Definition h3c_user : user :=
+  blank_user <| u_pid := h3_pid |> <| u_email := h3_pid |> <| u_password := exec_pwhash (bs "password1") |>
+             <| u_confirmed := true |> <| u_totp := bs "SECRET" |>
+             <| u_recovery := encode_codes [pwhash XC (bs "aaaaa-bbbbb")] |>.
+Definition h3c_validate : request :=
+  mkRequest (bs "b1") POST RTotpValidate (bs "/2fa/totp/validate") [] [] [(f_recovery_code, bs "aaaaa-bbbbb")] false.
+Definition h3c_start : world := fst (step XC h3t_cfg empty_world (ASeed h3c_user []) h3t_oracle).
+Definition h3c_history : list (action * oracle) := [(AReq h3t_login, h3t_oracle); (AReq h3c_validate, h3t_oracle)].
+
+Lemma h3c_witness :
+  filed (w_st h3c_start) /\
+  tf_of (w_st (fst (run XC h3t_cfg h3c_start h3c_history))) h3_pid <> tf_of (w_st h3c_start) h3_pid /\
+  alookup k_uid (jar_get (bs "b1") (w_sess (fst (run XC h3t_cfg h3c_start [(AReq h3t_login, h3t_oracle)])))) = None /\
+  alookup k_totp_pending (jar_get (bs "b1") (w_sess (fst (run XC h3t_cfg h3c_start [(AReq h3t_login, h3t_oracle)])))) = Some h3_pid.
+Proof.
+  split; [apply step_filed_lemma; exact filed_empty|].
+  split; [vm_compute; intros D; discriminate D|]. split; vm_compute; reflexivity.
+Qed.
